@@ -43,3 +43,102 @@ Qed.
 
 Lemma to_signed_mod' v : - HALF <= v <= HALF - 1 -> to_signed (v mod W) = v.
 Proof. intros. apply to_signed_mod. lia. Qed.
+
+Lemma to_signed_range x : - HALF <= to_signed (x mod W) <= HALF - 1.
+Proof. unfold to_signed. destruct (x mod W <? HALF) eqn:E; b2p; mlia. Qed.
+
+Lemma to_signed_abs_le d : - HALF <= d <= W - 1 -> Z.abs (to_signed (d mod W)) <= Z.abs d.
+Proof. intros. unfold to_signed. destruct (d mod W <? HALF) eqn:E; b2p; mlia. Qed.
+
+Lemma to_signed_nz d : - HALF <= d <= W - 1 -> d <> 0 -> to_signed (d mod W) <> 0 /\ d mod W <> 0.
+Proof. intros. unfold to_signed. destruct (d mod W <? HALF) eqn:E; b2p; mlia. Qed.
+
+Lemma rem_bounds s d : d <> 0 ->
+  Z.abs (Z.rem s d) <= Z.abs d - 1 /\
+  (0 <= s -> 0 <= Z.rem s d <= s) /\ (s <= 0 -> s <= Z.rem s d <= 0).
+Proof.
+  intros Hd. rewrite (Z.rem_mod s d Hd).
+  pose proof (Z.mod_pos_bound (Z.abs s) (Z.abs d) ltac:(lia)).
+  pose proof (Z.mod_le (Z.abs s) (Z.abs d) ltac:(lia) ltac:(lia)).
+  destruct (Z.sgn_spec s) as [[? ->]|[[? ->]|[? ->]]]; lia.
+Qed.
+
+Lemma to_signed_eq0 x : to_signed (x mod W) = 0 <-> x mod W = 0.
+Proof. unfold to_signed. destruct (x mod W <? HALF) eqn:E; b2p; mlia. Qed.
+
+(* Soundness for word inputs: [mem a TOP] holds for every integer, so evaluators whose result
+   for a TOP operand depends on the operand being an EVM word (or, signextend) are stated with
+   the explicit word hypotheses.  (For IV operands [mem] already implies them.) *)
+Definition sound2w (f : vrange -> vrange -> res vrange) (w : Z -> Z -> Z) : Prop :=
+  forall A B a b, wf A -> wf B -> 0 <= a < W -> 0 <= b < W -> mem a A -> mem b B ->
+    match f A B with Ok R => mem (w a b) R /\ wf R | Err _ => False end.
+
+Lemma sound2_sound2w f w : sound2 f w -> sound2w f w.
+Proof. intros S A B a b WA WB _ _ MA MB. exact (S A B a b WA WB MA MB). Qed.
+
+Lemma land_le_r x m : 0 <= m -> 0 <= Z.land x m <= m.
+Proof.
+  intros Hm.
+  assert (D: Z.land (Z.land x m) (Z.ldiff m x) = 0).
+  { apply Z.bits_inj'. intros n Hn. rewrite !Z.land_spec, Z.ldiff_spec, Z.bits_0.
+    destruct (Z.testbit x n), (Z.testbit m n); reflexivity. }
+  apply Z.add_nocarry_lxor in D.
+  assert (L: Z.lxor (Z.land x m) (Z.ldiff m x) = m).
+  { apply Z.bits_inj'. intros n Hn. rewrite Z.lxor_spec, Z.land_spec, Z.ldiff_spec.
+    destruct (Z.testbit x n), (Z.testbit m n); reflexivity. }
+  assert (0 <= Z.ldiff m x) by (apply Z.ldiff_nonneg; lia).
+  assert (0 <= Z.land x m) by (apply Z.land_nonneg; lia).
+  lia.
+Qed.
+
+Lemma land_le_l x m : 0 <= x -> 0 <= Z.land x m <= x.
+Proof. intros. rewrite Z.land_comm. apply land_le_r. assumption. Qed.
+
+Lemma land_maxu x : Z.land x (W - 1) = x mod W.
+Proof. change (W - 1) with (Z.ones 256). rewrite Z.land_ones by lia. reflexivity. Qed.
+
+Lemma to_signed_cong x : 0 <= x < W -> to_signed x mod W = x.
+Proof. intros. unfold to_signed. destruct (x <? HALF) eqn:E; b2p; mlia. Qed.
+
+Lemma to_signed_range' x : 0 <= x < W -> - HALF <= to_signed x <= HALF - 1.
+Proof. intros. unfold to_signed. destruct (x <? HALF) eqn:E; b2p; mlia. Qed.
+
+Lemma word_log2' x : 0 <= x < W -> Z.log2 x < 256.
+Proof.
+  intros H. destruct (Z.eq_dec x 0) as [->|N]; [cbn; lia|].
+  apply Z.log2_lt_pow2; [lia|]. change (2 ^ 256) with W. lia.
+Qed.
+
+Lemma of_log2 x : 0 <= x -> Z.log2 x < 256 -> 0 <= x < W.
+Proof.
+  intros H L. split; [exact H|]. destruct (Z.eq_dec x 0) as [->|N]; [reflexivity|].
+  change W with (2 ^ 256). apply Z.log2_lt_pow2; lia.
+Qed.
+
+Lemma word_lor x y : 0 <= x < W -> 0 <= y < W -> 0 <= Z.lor x y < W.
+Proof.
+  intros Hx Hy. apply of_log2; [apply Z.lor_nonneg; lia|].
+  rewrite Z.log2_lor by lia. pose proof (word_log2' x Hx). pose proof (word_log2' y Hy). lia.
+Qed.
+
+Lemma word_lxor x y : 0 <= x < W -> 0 <= y < W -> 0 <= Z.lxor x y < W.
+Proof.
+  intros Hx Hy. apply of_log2; [apply Z.lxor_nonneg; lia|].
+  pose proof (Z.log2_lxor x y ltac:(lia) ltac:(lia)).
+  pose proof (word_log2' x Hx). pose proof (word_log2' y Hy). lia.
+Qed.
+
+Lemma lor_maxu x : 0 <= x < W -> Z.lor x (W - 1) = W - 1.
+Proof.
+  intros H. change (W - 1) with (Z.ones 256). apply Z.lor_ones_low; [lia | apply word_log2'; exact H].
+Qed.
+
+(* a constant result produced by wrap256(_, signed=True) of a word x *)
+Lemma signed_const_ok x : 0 <= x < W ->
+  (exists v, to_signed (x mod W) <= v <= to_signed (x mod W) /\ v mod W = x) /\
+  - HALF <= to_signed (x mod W) /\
+  to_signed (x mod W) <= to_signed (x mod W) <= W - 1.
+Proof.
+  intros H. rewrite (Z.mod_small x W H). pose proof (to_signed_range' x H).
+  split; [exists (to_signed x); split; [lia | apply to_signed_cong; exact H] | wl].
+Qed.
